@@ -144,11 +144,11 @@ def typesFamily (fam : String) : Option (Parser String) :=
     | "u64" => do let ws ← words; done; if ws.length = 8 then pure (hexOfBytes (bytesOfWords ws)) else failure
     | "hex" => do
       let ws ← words; done
-      pure ("s" ++ ((hexOfBytes (bytesOfWords ws)).drop 1).toString)
+      pure ("s" ++ String.ofList (hexStrFromWords ws))
     | "unhex" => do
       let t ← tok; done
       match t.toList with
-      | 's' :: cs => pure (match parseHex cs with | some b => s!"ok {showWords (wordsOfBytes b)}" | none => "err")
+      | 's' :: cs => pure (match wordsFromHexStr cs with | some ws => s!"ok {showWords ws}" | none => "err")
       | _ => failure
     | "ca_w4" => do
       let b ← bytes; done
